@@ -2,6 +2,7 @@ package fio
 
 import (
 	"fmt"
+	"github.com/XiXi-2024/xixi-kv/verifhook"
 	"github.com/edsrzf/mmap-go"
 	"io"
 	"os"
@@ -22,6 +23,7 @@ type MMap struct {
 }
 
 func NewMMap(fileName string) (*MMap, error) {
+	verifhook.IO(verifhook.IOOpen, fileName, 0)
 	fd, err := os.OpenFile(fileName, os.O_CREATE|os.O_RDWR, DataFilePerm)
 	if err != nil {
 		return nil, err
@@ -71,16 +73,19 @@ func (m *MMap) Write(b []byte) (int, error) {
 	if err := m.remap(m.virtualSize, len(b)); err != nil {
 		return 0, err
 	}
+	verifhook.IO(verifhook.IOWrite, m.file.Name(), int64(len(b)))
 	copy(m.activeMap[m.virtualSize:m.virtualSize+int64(len(b))], b)
 	m.virtualSize += int64(len(b))
 	return len(b), nil
 }
 
 func (m *MMap) Sync() error {
+	verifhook.IO(verifhook.IOSync, m.file.Name(), 0)
 	return m.activeMap.Flush()
 }
 
 func (m *MMap) Close() error {
+	verifhook.IO(verifhook.IOSync, m.file.Name(), 0)
 	if err := m.activeMap.Flush(); err != nil {
 		return err
 	}
@@ -90,6 +95,7 @@ func (m *MMap) Close() error {
 	if err := m.ResetFileSize(); err != nil {
 		return err
 	}
+	verifhook.IO(verifhook.IOClose, m.file.Name(), 0)
 	return m.file.Close()
 }
 
@@ -98,6 +104,7 @@ func (m *MMap) Size() (int64, error) {
 }
 
 func (m *MMap) ResetFileSize() error {
+	verifhook.IO(verifhook.IOTruncate, m.file.Name(), m.virtualSize)
 	if err := m.file.Truncate(m.virtualSize); err != nil {
 		return err
 	}
@@ -119,6 +126,7 @@ func (m *MMap) remap(newBase int64, dataSize int) error {
 
 	// 如果新映射区域超过设置的文件大小, 则进行调整
 	if info, _ := m.file.Stat(); info.Size() < m.endOff {
+		verifhook.IO(verifhook.IOTruncate, m.file.Name(), m.endOff)
 		if err := m.file.Truncate(m.endOff); err != nil {
 			return fmt.Errorf("truncate failed: %v", err)
 		}
